@@ -170,6 +170,7 @@ def list_elements(typ):
     return comma_items()
 
 
+UNBUILDABLE_FLOATS = ["fast", "abc", None, "1,5"]
 NON_ASCII_VALUES = ["J\u00fcrgen <j at example dot org>", "\u5317\u4eac relay", "/var/lib/tor-\u00e9t\u00e9", "na\u00efve"]
 
 
